@@ -268,6 +268,14 @@ func (w *world) modsetOf(fn *ssa.Function) *modset {
 			}
 		}
 	}
+	if fc := w.contractFor(fn); fc != nil {
+		kg := w.keygen()
+		for _, name := range fc.ghostWrites {
+			if k, gv := kg.ghostKey(name); gv != nil {
+				ms.any[k] = modEntry{rootGlobal, nil, nil}
+			}
+		}
+	}
 	// recursion: iterate once more if self-recursive (cheap fixpoint for direct recursion)
 	w.modsets[fn] = ms
 	return ms
